@@ -86,7 +86,7 @@ Qed.
 Theorem cert_sound g e t : check_idom g e t = true ->
   forall w, reachable g e w -> w <> e -> exists d, pget t w = Some d /\ is_idom g e d w.
 Proof.
-  unfold check_idom. rewrite andb_true_iff. intros [Hc Heq] w Hr Hne.
+  unfold check_idom. cbv zeta. rewrite andb_true_iff. intros [Hc Heq] w Hr Hne.
   pose proof (reachable_node_bound _ _ _ Hr Hne) as Hlt.
   destruct Hr as [l Hp].
   pose proof (parent_closed _ _ _ Hc _ _ _ Hp (in_tree_entry t e)) as Hin.
@@ -127,7 +127,7 @@ Theorem cert_tree_dominance g e t : check_idom g e t = true ->
 Proof.
   intros Hc w a Hr. split.
   - apply cert_parent_sound; auto.
-    unfold check_idom in Hc. apply andb_true_iff in Hc. tauto.
+    unfold check_idom in Hc. cbv zeta in Hc. apply andb_true_iff in Hc. tauto.
   - destruct Hr as [l Hp]. intros Hd.
     eapply (tree_anc_complete g e t (cert_sound g e t Hc) (length l) l); eauto.
 Qed.
